@@ -216,6 +216,12 @@ fn k2_text(len: u32, mut i: u64) -> String {
     cs.concat()
 }
 
+/// number of leading items (all segments before the K4 length-6 tier); used by checks that execute the accepted
+/// inputs and keep the longest tier for their thorough run
+pub fn total_before_len6(tier: Tier) -> u64 {
+    segs(tier, false).iter().take_while(|s| s.name != "k4-len6").map(|s| s.count).sum()
+}
+
 pub fn total(tier: Tier, with_programs: bool) -> u64 {
     segs(tier, with_programs).iter().map(|s| s.count).sum()
 }
@@ -740,7 +746,7 @@ fn canonical_token(t: &LexerToken) -> Option<&'static str> {
 /// character-level one; keeps the same failure kind
 pub fn shrink_text(text: &str, classify: &dyn Fn(&str) -> Option<String>, kind: &str) -> String {
     let mut cur_text = text.to_string();
-    let mut budget = 200;
+    let mut budget = 400;
     'tok: loop {
         let toks = match lex_g(&cur_text) {
             Ok(t) => t,
@@ -761,6 +767,25 @@ pub fn shrink_text(text: &str, classify: &dyn Fn(&str) -> Option<String>, kind: 
             if classify(&s).as_deref() == Some(kind) {
                 cur_text = s;
                 continue 'tok;
+            }
+        }
+        // two tokens at once (a bracket pair, an operator with its operand); short inputs only
+        if toks.len() <= 12 {
+            for i in 0..toks.len() {
+                for j in (i + 1)..toks.len() {
+                    if budget == 0 {
+                        break 'tok;
+                    }
+                    budget -= 1;
+                    let mut cand = texts.clone();
+                    cand.remove(j);
+                    cand.remove(i);
+                    let s = cand.concat();
+                    if classify(&s).as_deref() == Some(kind) {
+                        cur_text = s;
+                        continue 'tok;
+                    }
+                }
             }
         }
         for i in 0..toks.len() {
@@ -813,7 +838,10 @@ pub fn show(s: &str) -> String {
 pub struct C03;
 
 fn c03_kind(text: &str) -> Option<String> {
-    let o = run_text(text, false);
+    c03_kind_o(&run_text(text, false))
+}
+
+fn c03_kind_o(o: &Outcome) -> Option<String> {
     match (&o.stage_fail, &o.c04) {
         (Some(Fail::Panic(stage, m)), _) => Some(format!("panic-{}[{}]", stage, panic_kind(m))),
         // a child link that leads back to an ancestor makes build run forever: parse must not return such a result
@@ -866,7 +894,7 @@ impl Property for C03 {
         if o.accepted {
             cx.count("accepted", 1);
         }
-        if let Some(kind) = c03_kind(&text) {
+        if let Some(kind) = c03_kind_o(&o) {
             let w = if text.len() <= 64 { shrink_text(&text, &c03_kind, &kind) } else { text.chars().take(64).collect() };
             cx.violation(&kind, &show(&w), json!({"text": w, "first_seen": text}));
         }
@@ -901,7 +929,10 @@ impl Property for C03 {
 pub struct C04;
 
 fn c04_kind(text: &str) -> Option<String> {
-    let o = run_text(text, false);
+    c04_kind_o(&run_text(text, false))
+}
+
+fn c04_kind_o(o: &Outcome) -> Option<String> {
     // in domain only when parse and build accept; trees that are unbuildable belong to C03
     match (&o.c04, o.accepted) {
         (Some(Malformed(m)), true) => Some(m.clone()),
@@ -945,7 +976,7 @@ impl Property for C04 {
             cx.count("accepted", 1);
             cx.nontrivial(&text);
         }
-        if let Some(kind) = c04_kind(&text) {
+        if let Some(kind) = c04_kind_o(&o) {
             let w = if text.len() <= 64 { shrink_text(&text, &c04_kind, &kind) } else { text.clone() };
             cx.violation(&kind, &show(&w), json!({"text": w, "first_seen": text}));
         }
@@ -974,7 +1005,10 @@ impl Property for C04 {
 pub struct C05;
 
 fn c05_kind(text: &str) -> Option<String> {
-    let o = run_text(text, true);
+    c05_kind_o(&run_text(text, true))
+}
+
+fn c05_kind_o(o: &Outcome) -> Option<String> {
     match (&o.c05, o.accepted) {
         (Some((which, Malformed(m))), true) => Some(format!("{}/{}", which, m)),
         _ => None,
@@ -1017,7 +1051,7 @@ impl Property for C05 {
             cx.count("builds_checked", 4);
             cx.nontrivial(&text);
         }
-        if let Some(kind) = c05_kind(&text) {
+        if let Some(kind) = c05_kind_o(&o) {
             let w = if text.len() <= 64 { shrink_text(&text, &c05_kind, &kind) } else { text.clone() };
             cx.violation(&kind, &show(&w), json!({"text": w, "first_seen": text}));
         }
